@@ -622,7 +622,9 @@ example : generate {} none none = .error := by decide
 
 /-- **source tie** (Gen/SourceRules.lean is regenerated from /repo on every run): `clamp_values_int` of level1.rs —
 its three `clamp` calls and the limits `L1_MIN_PQ_MAX_VALUE`, `L1_MAX_PQ_MIN_VALUE`, `L1_MAX_PQ_MAX_VALUE`,
-`L1_AVG_PQ_MIN_VALUE(_CMV40)` as they stand in the source now — is the model's `clampL1`, for every block -/
+`L1_AVG_PQ_MIN_VALUE(_CMV40)` as they stand in the source now — is the model's `clampL1`, for every block. (The
+translator reads the `let` and the three assignments; that the function body consists of nothing else is held by the
+source pin of `clamp_values_int` in tools/check_source_pins.py.) -/
 theorem source_l1_clamp_agrees (cmv40 : Bool) (b : Block) :
     clampL1 cmv40 b =
       (if b.level == 1 then
